@@ -804,6 +804,28 @@ pub fn run(lines: &[Value], opts: &SampleOpts) -> Summary {
         // history across samplers: the last call of the previous line and the first call of this one carry the bit-identical
         // Gamma coordinate (the samplers differ, in general also their degree of divergence)
         if let Some(p0) = pts.first_mut() { if p0.x.len() > 2 * line.e - 2 { p0.x[2 * line.e - 2] = HANDOVER; } }
+        // targeted sectors: where the table the sampler holds differs from the specification's table of this line (loop number,
+        // spanning flag or omega of a subset), sectors that pass THROUGH that subset are visited, so that the consequences
+        // for the sample-level relations are observed rather than left to chance (never taken on a tree whose table is right)
+        {
+            let tj = samplers[0].to_json();
+            if let Some(tbl) = tj["table"]["table"].as_array() {
+                let n = 1usize << line.e;
+                let mut diff: Vec<usize> = vec![];
+                if tbl.len() == n {
+                    for id in 1..n - 1 {
+                        let (cl, cs, cw) = (tbl[id]["loop_number"].as_i64().unwrap_or(-1), tbl[id]["mass_momentum_spanning"].as_bool().unwrap_or(false), tbl[id]["generalized_dod"].as_f64().unwrap_or(f64::NAN));
+                        let (sl, ss) = (as_i64(&inst["l"][id]), inst["s"][id].as_bool().unwrap_or(false));
+                        if cl != sl || cs != ss || !((cw - line.gd[id]).abs() <= 1e-9 * (1.0 + line.gd[id].abs())) { diff.push(id); }
+                    }
+                }
+                for &id in diff.iter().take(6) {
+                    let order: Vec<usize> = (0..line.e).filter(|b| id >> b & 1 == 0).chain((0..line.e).filter(|b| id >> b & 1 == 1)).collect();
+                    for k in 0..6u32 { pts.push(make_point(&line, dim, Some(&order), &mut rng, k % 2)); }
+                    sm.count("targeted_sectors");
+                }
+            }
+        }
         let mut cx = Ctx { line: &line, inst, idx, sm: &mut sm };
         // history twins: the same point again with its Box-Muller coordinates permuted (a <-> b inside every pair, and the
         // pairs reversed): what was computed for the previous point must not be reused for this one
